@@ -364,11 +364,12 @@ def to_node(
                 on_node(star_node)
 
     # Find all columns that went into creating this one to list their lineage nodes.
-    source_columns = set(find_all_in_scope(select, exp.Column))
+    # A dict is used as an ordered set, so that the downstream nodes don't depend on the hash seed
+    source_columns = dict.fromkeys(find_all_in_scope(select, exp.Column))
 
     # If the source is a UDTF find columns used in the UDTF to generate the table
     if isinstance(source, exp.UDTF):
-        source_columns |= set(source.find_all(exp.Column))
+        source_columns.update(dict.fromkeys(source.find_all(exp.Column)))
         derived_tables: Sequence[exp.Expr] = [
             src.expression.parent
             for src in scope.sources.values()
